@@ -359,11 +359,22 @@ func checkC08(tier string) {
 		if compiled {
 			m.kind, m.src = "directed-compiled", c08CompiledModule()
 		}
+		var files map[string]string
+		if !compiled && j%4 == 1 {
+			// the generic functions live in an imported file and the main module declares none of its own: whatever the
+			// interpreter sets up per evaluation for generic calls must not depend on where the function was declared
+			lib := "! identity<T>(x: T): T {\n  > x\n}\n\n! pick<T>(a: T, b: T): T {\n  > b\n}\n"
+			if strings.Contains(m.src, lib) {
+				m.src = "from \"./genlib\" import { identity, pick }\n\n" + strings.Replace(m.src, lib, "", 1)
+				files = map[string]string{"genlib.glyph": lib}
+				r.Count("directed_jobs_with_imported_generics", 1)
+			}
+		}
 		n := 600
 		for i := 0; i < n; i++ {
 			m.reqs = append(m.reqs, c08Pure(rng, i, compiled))
 		}
-		hj := HJob{ID: id, Src: m.src, Interp: m.interp, Conc: m.conc, Rounds: 1, WatchS: 60, TCP: j%6 == 5}
+		hj := HJob{ID: id, Src: m.src, Interp: m.interp, Conc: m.conc, Rounds: 1, WatchS: 60, TCP: j%6 == 5, Files: files}
 		for _, q := range m.reqs {
 			hj.Reqs = append(hj.Reqs, q.Req)
 		}
